@@ -526,5 +526,5 @@ def _run(ctx: U.Ctx, tier: str, seed: int) -> BoundedReport:
 
 
 def run(tier: str, seed: int) -> BoundedReport:
-    budget = 45 if tier == 'quick' else 780
+    budget = 45 if tier == 'quick' else 600
     return U.run_isolated('c13_dictorder', 'C13', tier, seed, budget_s=budget, hard_timeout_s=budget * 2 + 60)
